@@ -14,11 +14,13 @@ RULE = ("random meshed MV nets (2-8 buses, 0-1 HV/MV trafo, line std types or ex
         "wards, xwards, motors, asymmetric elements, 0-3 gens sharing buses with/without q limits, random scaling in {0,.5,1,1.25} "
         "and in_service flags; options voltage_depend_loads on/off, numba on/off; plus DC power flows; plus nets meeting the guard of the numba "
         "single-slack shortcut (one ext_grid, no gen, purely resistive shunts/wards, numba=True); plus two-step histories "
-        "(enforce_q_lims with a gen at its limit, then a recycled run after a set point change); "
+        "(enforce_q_lims with a gen at its limit, then a recycled run after a set point change); plus nets of the C02 generator "
+        "(vf/c02_gen: lines, 2W/3W transformers with tap changers, impedances, xward, impedance switches) for the composed chain "
+        "element parameters -> C02 branch rows -> stamps -> flows -> nodal sum; "
         "non-trivial = some ppc bus carries >= 2 in-service bus elements")
 ASSUMPTIONS = [
     "the Newton solver is an oracle: its |V|, and the injections V*conj(Ybus*V) computed from net._ppc['internal'], are inputs of the model (rounded to 30 bits)",
-    "the branch side (Ybus = Cf'Yf + Ct'Yt + diag(ysh), terminal flows) is an input; the identity 'sum of reported branch flows at a bus = injection - bus shunt' is validated on every case (hypothesis validation), not proved here",
+    "the branch side of the main stream takes the two-port rows from the run's Yf/Yt (inputs); in the rows stream they are produced by the C02 branch model from the element parameters (C01_flow_sum_identity_rows) and compared with V*conj(Ybus*V) and the PF/QF/PT/QT columns of the run",
     "motor / asymmetric element P,Q are taken from _get_motor_pq / _get_symmetric_pq_of_unsymetric_element (sqrt oracle)",
     "iteration order of the Python set of load buses (build_bus.py:616) is computed by the same expression in the harness",
     "all ppci gen rows are in service when _update_p runs (checked per case)",
@@ -193,6 +195,7 @@ def _oracle_only(ctx, net, net_js, opts):
 
 
 YBUS_CASES = 8
+ROWS_CASES = 5           # nets of the composed chain C02 rows -> stamps -> flows -> nodal sum
 
 
 def _prepare(ctx, net, opts, terms, pend, sample=False, yb=None):
@@ -441,10 +444,70 @@ def _corpus(ctx):
     return out
 
 
+def _rows_case(ctx, rng, rterms, rpend, desc=None):
+    """composed chain on the C02 branch model (C01_flow_sum_identity_rows): a net of vf/c02_gen (lines, 2W/3W transformers with
+    tap changers, impedances, xward, impedance switches); the model builds every ppc branch row from the element parameters
+    (C02.Model / C02.Run), stamps it, assembles Ybus and evaluates injection and flow sum per ppci bus; the impl side is
+    V*conj(Ybus*V) with the Ybus of the run and the PF/QF/PT/QT columns of the ppc branch rows."""
+    from vf import c02_gen as g2
+    from pandapower.pypower.idx_bus import GS as GS_, BS as BS_
+    d = desc if desc is not None else g2.gen_desc(rng, passive=False)
+    net = g2.build(d)
+    try:
+        g2.run_ac(net, d)
+    except Exception as e:
+        ctx.count("rows_ac_raised_" + type(e).__name__)
+        return False
+    obs = [o for o in g2.observe(net, d) if o.active]
+    internal = net._ppc["internal"]
+    if len(obs) != internal["branch"].shape[0]:
+        ctx.count("rows_unobserved_branch_kind")
+        return False
+    sn = float(net.sn_mva)
+    V = np.asarray(internal["V"])
+    ibus = internal["bus"]
+    nb = ibus.shape[0]
+    s_impl = V * np.conj(internal["Ybus"] @ V) * sn
+    F = np.zeros(nb, dtype=complex)
+    for o in obs:
+        F[o.fi] += o.flows[0]
+        F[o.ti] += o.flows[1]
+    c40 = lambda z: "(mkC %s %s)" % (cq.q(float(z.real), 40), cq.q(float(z.imag), 40))     # solver outputs rounded to 40 bits
+    es = ["(%s, %s, %s, %s, %s)" % (cq.nat(o.fi), cq.nat(o.ti), o.rowterm, c40(o.e), g2.q(o.baset)) for o in obs]
+    ysh = [c40(complex(ibus[k, GS_].real, ibus[k, BS_].real) / sn) for k in range(nb)]
+    rterms.append("run_rows %s %s %s %s %s" % (cq.lst(es), cq.lst(ysh), cq.lst([c40(complex(v)) for v in V]), g2.q(sn), cq.nat(nb)))
+    rpend.append(({"c02_desc": d}, s_impl, F, sum(abs(o.flows[0]) + abs(o.flows[1]) for o in obs)))
+    for o in obs:
+        ctx.count("rows_" + o.kind)
+    ctx.case({"c02_desc": d}, nontrivial=len(obs) >= 3)
+    return True
+
+
+def _rows_compare(ctx, rpend, rmodel):
+    for (case, s_impl, F, scale), m in zip(rpend, rmodel):
+        ctx.corr_checked += 1
+        ctx.count("rows_cases")
+        if isinstance(m, cq.Err):
+            ctx.disagreement("C02 rows -> Ybus: the model raises %s, the impl ran" % (m,), case)
+            continue
+        bad = []
+        tol = 1e-7 * max(1.0, scale)
+        for k in range(len(s_impl)):
+            (sr, si), (fr, fi) = m[k]
+            sm, fm = complex(float(sr), float(si)), complex(float(fr), float(fi))
+            if abs(sm - s_impl[k]) > tol:
+                bad.append("bus %d injection [MVA]: Ybus of the model's rows %r, V*conj(Ybus*V) of the run %r" % (k, sm, complex(s_impl[k])))
+            if abs(fm - F[k]) > tol:
+                bad.append("bus %d branch flow sum [MVA]: model rows %r, ppc branch PF/QF/PT/QT %r" % (k, fm, complex(F[k])))
+        if bad:
+            ctx.disagreement("rows -> stamps -> flows -> nodal sum: " + "; ".join(bad[:3]), case)
+
+
 def run(ctx, only=None):
     rng = ctx.rng
     terms, pend = [], []
     dterms, dpend = [], []
+    rterms, rpend = [], []
     yb = ([], [])
     if only is None:
         for net, opts in _corpus(ctx):
@@ -480,8 +543,16 @@ def run(ctx, only=None):
             _recycle_after_qlims(ctx, rng)
         for _ in range(ctx.n(25, 300)):
             _qlims_with_zip(ctx, rng)
+        k = 0
+        for _ in range(3 * ctx.n(ROWS_CASES, 10 * ROWS_CASES)):
+            if k >= ctx.n(ROWS_CASES, 10 * ROWS_CASES):
+                break
+            k += bool(_rows_case(ctx, rng, rterms, rpend))
     else:
         for net, opts in only:
+            if opts.get("c02_desc") is not None:
+                _rows_case(ctx, rng, rterms, rpend, desc=opts["c02_desc"])
+                continue
             if opts.get("dc"):
                 _dc_oracle(ctx, rng, dterms, dpend, net=net)
             elif opts.get("enforce_q_lims"):
@@ -492,11 +563,14 @@ def run(ctx, only=None):
     from concurrent.futures import ThreadPoolExecutor
     t_impl = time.time() - ctx.t0
     req = "Base.QN Base.QC C01.Model"
-    with ThreadPoolExecutor(max_workers=3) as ex:      # the three model evaluations are independent
+    rreq = "Base.QN Base.QC C01.BranchModel C31.Model C02.Model C02.Run"      # C02 names last: the row terms are written in them
+    with ThreadPoolExecutor(max_workers=4) as ex:      # the four model evaluations are independent
+        f_rows = ex.submit(lambda: ctx.coq_eval("c01r", rreq, rterms, shard=1, timeout=900) if rterms else [])
         f_main = ex.submit(lambda: ctx.coq_eval("c01", req, terms, shard=5, timeout=900) if terms else [])
         f_yb = ex.submit(lambda: ctx.coq_eval("c01y", req + " C01.YbusModel", yb[0], shard=3, timeout=900) if yb[0] else [])
         f_dc = ex.submit(lambda: ctx.coq_eval("c01dc", req, dterms, shard=6, timeout=900) if dterms else [])
-        model, ym, dmodel = f_main.result(), f_yb.result(), f_dc.result()
+        model, ym, dmodel, rmodel = f_main.result(), f_yb.result(), f_dc.result(), f_rows.result()
+    _rows_compare(ctx, rpend, rmodel)
     for (x, net, impl, case, cands, obs, F), m in zip(pend, model):
         _compare(ctx, x, net, m, impl, case, cands, obs, F)
     ctx.extra["t_impl_s"] = round(t_impl, 1)
@@ -523,5 +597,8 @@ def run(ctx, only=None):
 
 def replay(ctx, rec):
     case = rec["case"]
+    if "c02_desc" in case:
+        run(ctx, only=[(None, {"c02_desc": case["c02_desc"]})])
+        return
     net = pp.from_json_string(case["net"])
     run(ctx, only=[(net, case.get("opts", {}))])
